@@ -234,7 +234,7 @@ func firstLine(s string) string {
 	s = strings.TrimSpace(s)
 	lines := strings.Split(s, "\n")
 	for _, l := range lines {
-		if strings.Contains(l, "SYM-") || strings.HasPrefix(l, "panic:") {
+		if strings.Contains(l, "SYM-") || strings.HasPrefix(l, "panic:") || strings.Contains(l, "DATA RACE") {
 			return l
 		}
 	}
@@ -388,8 +388,10 @@ func writeReplay(v *Violation, prop string) {
 }
 
 type replayer struct {
-	dir string
-	bin string
+	dir     string
+	bin     string
+	ovPath  string
+	raceBin string
 }
 
 func newReplayer(verif string) (*replayer, error) {
@@ -432,13 +434,39 @@ func newReplayer(verif string) (*replayer, error) {
 		os.RemoveAll(dir)
 		return nil, fmt.Errorf("go build: %v\n%s", err, out)
 	}
-	return &replayer{dir: dir, bin: bin}, nil
+	return &replayer{dir: dir, bin: bin, ovPath: ovPath}, nil
 }
 
 func (r *replayer) Close() { os.RemoveAll(r.dir) }
 
 // Run returns whether the native run fails the way the violation says.
+// runRace confirms a global-write finding: the harness is run from several goroutines at once in a
+// binary built with the race detector; a reported data race is the native demonstration.
+func (r *replayer) runRace(v *Violation) (bool, string) {
+	if r.raceBin == "" {
+		bin := filepath.Join(r.dir, "replay.race.bin")
+		cmd := exec.Command("go", "build", "-race", "-overlay", r.ovPath, "-o", bin, "./internal/zzverif/replaymain")
+		cmd.Dir = "/repo"
+		cmd.Env = append(os.Environ(), "GOFLAGS=-mod=mod", "GOPROXY=off", "GOSUMDB=off", "GOTOOLCHAIN=local", "CGO_ENABLED=1", "GOCACHE="+filepath.Join(r.dir, "gocache"))
+		if out, err := cmd.CombinedOutput(); err != nil {
+			return false, fmt.Sprintf("go build -race: %v\n%s", err, out)
+		}
+		r.raceBin = bin
+	}
+	cmd := exec.Command(r.raceBin, v.Replay)
+	cmd.Env = append(os.Environ(), "GOTRACEBACK=single", "SYM_CONCURRENT=1", "GORACE=halt_on_error=0")
+	out, _ := cmd.CombinedOutput()
+	so := string(out)
+	if len(so) > 6000 {
+		so = so[:6000]
+	}
+	return strings.Contains(so, "WARNING: DATA RACE"), so
+}
+
 func (r *replayer) Run(v *Violation) (bool, string) {
+	if v.Kind == "global-write" {
+		return r.runRace(v)
+	}
 	cmd := exec.Command(r.bin, v.Replay)
 	cmd.Env = append(os.Environ(), "GOTRACEBACK=single")
 	done := make(chan struct{})
